@@ -144,27 +144,40 @@ def mapping_cleared(chk, rule):
     prog = chk.program
     close = find_close_all(prog)
     RUNNERS = ("attr", SELF, slots.runners_map(prog))
-    outs = Interp(prog, close, unroll=1).run()
-    chk.count(len(outs))
     ok = True
-    for o in outs:
-        if o.kind not in ("normal", "return"):
-            continue
-        evs = o.path.events
-        cleared = [i for i, e in enumerate(evs) if (e[0] == "call" and e[1][1] == ("attr", RUNNERS, "clear")) or (e[0] == "store" and e[1] == RUNNERS and e[2] in (("dict", ()), ("call", ("glob", "ext:builtins.dict"), (), (), e[2][4] if len(e[2]) > 4 else 0)))]
-        closes = [i for i, e in enumerate(evs) if e[0] == "call" and e[1][1][0] == "attr" and e[1][1][2] == "aclose"]
-        if not cleared or (closes and cleared[-1] < closes[-1]):
-            chk.bad(
-                rule,
-                close.qual,
-                "close-all leaves the closed runners in the runner mapping: a payload registered before the NEXT run is handed to a dead runner instead of being queued, so its failure is lost (thread) or it is discarded (trio) and the next run never ends",
-                node=close.node,
-                stmt="runners-not-cleared",
-            )
-            ok = False
-            break
+    # on EVERY exit of the supervising coroutine -- failure and interrupt (through close-all or a finally) and also the
+    # graceful one (stop() closed the runners, the join returned normally, close-all never ran) -- the mapping is emptied:
+    # a payload registered after the run must find no dead runner
+    sup = slots.supervisor(prog)
+    CLOSE = ("attr", SELF, close.name)
+    for label in (None, "AnyException", "KeyboardInterrupt", "asyncio.CancelledError"):
+
+        def hook(it, path, ct, node, label=label):
+            if ct[0] == "call" and ct[1] == GATHER and not any(e[0] == "inline-enter" and e[1] == close.qual for e in path.events):
+                return [("value", ("sym", "results"))] if label is None else [("raise", REPRESENTATIVES[label])]
+            return None
+
+        for o in Interp(prog, sup, call_hook=hook, unroll=1, inline=lambda f, ct: f.cls is sup.cls and f.qual == close.qual).run():
+            chk.count()
+            if o.kind == "cut":
+                continue
+            evs = o.path.events
+            if not any(e[0] == "call" and e[1][1] == GATHER for e in evs):
+                continue
+            cleared = [e for e in evs if (e[0] == "call" and e[1][1] == ("attr", RUNNERS, "clear")) or (e[0] == "store" and e[1] == RUNNERS and strip_sites(e[2]) in (("dict", ()), ("call", ("glob", "ext:builtins.dict"), (), ())))]
+            if not cleared:
+                how = "after a graceful stop (the join over the runner tasks returned normally)" if label is None else "after the join ended with %s" % label
+                chk.bad(
+                    rule,
+                    sup.qual,
+                    "%s the supervising coroutine leaves the stopped runners in the runner mapping: a payload registered after the run is handed to a dead runner instead of being queued for the next run -- an asyncio payload makes register_payload / adopt raise RuntimeError('Event loop is closed'), a thread payload is started outside of any run and its failure is lost" % how[0].upper() + how[1:] if False else "%s the supervising coroutine leaves the stopped runners in the runner mapping: a payload registered after the run is handed to a dead runner instead of being queued for the next run -- an asyncio payload makes register_payload / adopt raise RuntimeError('Event loop is closed'), a thread payload is started outside of any run and its failure is lost" % how,
+                    node=sup.node,
+                    stmt="runners-not-cleared %s" % ("graceful" if label is None else label),
+                    input=how,
+                )
+                ok = False
     if ok:
-        chk.ok(rule, close.qual, "the runner mapping is cleared after all runners are closed", node=close.node)
+        chk.ok(rule, sup.qual, "the runner mapping is emptied on every exit of the supervising coroutine (graceful stop, failure, interrupt, cancellation)", node=sup.node)
 
 
 def asyncio_runner(chk):
